@@ -220,7 +220,7 @@ func generate(g *core.Gen) {
 	}
 
 	// ---- random trees, random orders
-	for i, n := 0, g.N(100, 800); i < n; i++ {
+	for i, n := 0, g.N(140, 800); i < n; i++ {
 		size := 4 + r.Intn(g.N(28, 60))
 		if r.Chance(1, 8) {
 			size = g.N(40, 100) + r.Intn(g.N(21, 300))
@@ -376,7 +376,7 @@ func pacedTree(r *core.Rand, tree []blk) []blk {
 // block), so that "most cumulative work" and "longest" disagree.
 func genVariedWork(g *core.Gen) {
 	r := g.R
-	for i, n := 0, g.N(50, 400); i < n; i++ {
+	for i, n := 0, g.N(70, 400); i < n; i++ {
 		size := 5 + r.Intn(g.N(22, 60))
 		tree := pacedTree(r, randTree(r, size, int(r.Pick(1, 1, 0)), int(r.Pick(0, 0, 80, 200))))
 		ops := randomOrder(r, tree, int(r.Pick(0, 100)), int(r.Pick(0, 0, 200)), int(r.Pick(40, 80, 95, 100)))
@@ -411,7 +411,7 @@ func genInvRec(g *core.Gen) {
 		tree []blk
 		ops  []op
 	}
-	for i, n := 0, g.N(140, 1500); i < n; i++ {
+	for i, n := 0, g.N(180, 1500); i < n; i++ {
 		size := 3 + r.Intn(g.N(14, 40))
 		tree := relabel(r, randTree(r, size, int(r.Pick(0, 1, 1, 2)), int(r.Pick(0, 0, 100))))
 		ops := randomOrder(r, tree, 0, int(r.Pick(0, 0, 0, 100)), int(r.Pick(90, 100, 100)))
